@@ -32,8 +32,8 @@ def goodCheck (s : St CHeap) : Option String :=
     match lambdaAt h s.ipL with
     | none => none
     | some l =>
-      if !(l.bc.all fun c => match c with
-          | .bpOffset off => decide ((s.bp : Int) + off ≤ (s.stack.sp : Int))
+      if !(match l.bc[s.ipO + 1]? with
+          | some (.bpOffset off) => decide ((s.bp : Int) + off ≤ (s.stack.sp : Int))
           | _ => true) then some "bp-live" else
       match l.bc[s.ipO]? with
       | some (.opcode .ret) | some (.opcode .tcallAcc) =>
